@@ -110,3 +110,15 @@ def proc_pairs(ps0: 'Seq[YPair]', kt: 'Ty', vt: 'Ty', ps1: 'Seq[YPair]',
     return (proc_pairs(ps0, kt, vt, ps1, i - 1)
             and proc_rel(ps0[i - 1].k, kt, ps1[i - 1].k)
             and proc_rel(ps0[i - 1].v, vt, ps1[i - 1].v))
+
+
+# ---- Constructor.__strip_extra_attributes (C04): every key is a str scalar;
+# values of keys that are not constructor parameters are plain
+
+@spec(local=('ps', 'i'))
+def extras_plain(ps: 'Seq[YPair]', known: 'Set[str]', i: int) -> bool:
+    if i <= 0:
+        return True
+    return (extras_plain(ps, known, i - 1)
+            and ps[i - 1].k.kind == SCALAR and ps[i - 1].k.tag == STR_TAG
+            and (in_strs(ps[i - 1].k.val, known) or plain(ps[i - 1].v)))
